@@ -144,7 +144,7 @@ elif mode == 'hostile':
                         'db_same': sha(dbp) == h, 'tables': tables})
     finally:
         shutil.rmtree(d, ignore_errors=True)
-print(json.dumps(out))
+print(json.dumps(out, default=repr))
 '''
 
 
